@@ -106,12 +106,76 @@ def run_reformat(args):
     return ("whole-tree-reformat", "keep", "silent", "", [])
 
 
+def _rename_locals(src):
+    """Alpha-rename every local variable of every function (suffix _r): parameters, attributes,
+    globals and names of nested functions' parameters keep their names."""
+    import ast as _ast
+    tree = _ast.parse(src)
+
+    def process(fn):
+        a = fn.args
+        params = {x.arg for x in a.posonlyargs + a.args + a.kwonlyargs}
+        if a.vararg:
+            params.add(a.vararg.arg)
+        if a.kwarg:
+            params.add(a.kwarg.arg)
+        glob, local, nested = set(), set(), set()
+        for n in _ast.walk(fn):
+            if isinstance(n, (_ast.Global, _ast.Nonlocal)):
+                glob |= set(n.names)
+            if isinstance(n, _ast.Name) and isinstance(n.ctx, (_ast.Store, _ast.Del)):
+                local.add(n.id)
+            if isinstance(n, (_ast.FunctionDef, _ast.AsyncFunctionDef, _ast.Lambda)) and n is not fn:
+                b = n.args
+                nested |= {x.arg for x in b.posonlyargs + b.args + b.kwonlyargs}
+        local -= params | glob | nested | {"self", "cls", "_"}
+        for n in _ast.walk(fn):
+            if isinstance(n, _ast.Name) and n.id in local:
+                n.id = n.id + "_r"
+
+    for node in _ast.walk(tree):
+        if isinstance(node, _ast.ClassDef):
+            for st in node.body:
+                if isinstance(st, (_ast.FunctionDef, _ast.AsyncFunctionDef)):
+                    process(st)
+    for st in tree.body:
+        if isinstance(st, (_ast.FunctionDef, _ast.AsyncFunctionDef)):
+            process(st)
+    out = _ast.unparse(tree) + "\n"
+    compile(out, "<renamed>", "exec")
+    return out
+
+
+def run_rename(args):
+    """Whole-tree preserving variant: every local variable renamed. Findings are compared by
+    (rule, file, function) because the construct text contains the renamed identifiers."""
+    prop, root, base_sig = args
+    base = Tree(root)
+    try:
+        ov = {rel: _rename_locals(m.src) for rel, m in base.modules.items()}
+    except Exception as exc:  # pragma: no cover
+        return ("whole-tree-rename-locals", "keep", "broken-variant", repr(exc), [])
+    try:
+        ctx = analyse(prop, root, ov)
+    except AnalysisError as exc:
+        return ("whole-tree-rename-locals", "keep", "analysis-error", str(exc), [])
+    except Exception as exc:
+        return ("whole-tree-rename-locals", "keep", "analysis-error", "internal: " + repr(exc), [])
+    new = sorted({(f.rule, f.rel, f.func) for f in ctx.findings} - base_sig)
+    if new:
+        return ("whole-tree-rename-locals", "keep", "FALSE-ALARM", " :: ".join(new[0]), [])
+    if getattr(ctx, "problems", None):
+        return ("whole-tree-rename-locals", "keep", "analysis-error", "; ".join(ctx.problems), [])
+    return ("whole-tree-rename-locals", "keep", "silent", "", [])
+
+
 def run_variants(prop, root, base_keys, only_controls):
     mod = rules_module(prop)
     vs = [v for v in getattr(mod, "VARIANTS", []) if (v.control or not only_controls)]
     jobs = [(prop, root, v, base_keys) for v in vs]
     if not only_controls:
-        extra = [run_reformat((prop, root, base_keys))]
+        base_sig = {tuple(k.split(" :: ")[:3]) for k in base_keys}
+        extra = [run_reformat((prop, root, base_keys)), run_rename((prop, root, base_sig))]
     else:
         extra = []
     return extra + _run_variant_jobs(jobs)
